@@ -30,15 +30,16 @@ LEVEL_TEXT = (
     "Proved in Lean 4 (no size bound): K1 treeReduce_eq_fold — for every block list, every group size k "
     "(split_every) and every depth with n ≤ k^depth the combine/aggregate tree of _tree_reduce/partial_reduce "
     "returns exactly one block equal to the flat aggregate whenever combine/aggregate are homomorphisms on "
-    "concatenation; instances sum, prod, any, all, min, max (with dask's empty-chunk rule), mean as (total,n), "
-    "first-occurrence argmin/argmax as (value, flat index) and top-k; hence independence of split_every. "
-    "K2: sequential cumreduction equals the global scan for every chunking including zero-length blocks "
-    "(seqScan_eq_scan); the Blelloch up/down sweep computes every block prefix for any schedule accepted by the "
-    "proved interval checker (blelloch_sound), and dask's schedule is accepted for every n_vals ≤ 32 by kernel "
-    "evaluation (schedOk_le_32) — general n is validated (all n ≤ 300 in the thorough tier), i.e. partial. "
-    "Validated, not proved: float summation order (tolerance), var/std/moment (Chan merge) and nan-variants, "
-    "median/quantile glue, multi-axis value-level equality (the n-d plan is diffed against the real graph and "
-    "executed by the driver on integer data)."
+    "concatenation; hence split_every_irrelevant. Instances proved equal to the NumPy specification for every "
+    "blocking: sum, prod, any, all, mean as (total,n), min/max with dask's empty-chunk rule (min_eq_numpy, "
+    "max_eq_numpy), argmin/argmax returning the FIRST flat index of the extremum (argmin_eq_numpy, argmax_eq_numpy: "
+    "1-d / raveled order, non-empty blocks). K2: sequential cumreduction equals the global scan for every chunking "
+    "including zero-length blocks (seqScan_eq_scan); Blelloch: any schedule accepted by the proved interval checker "
+    "yields every block prefix (blelloch_sound, blelloch_eq_scan, any monoid, any n), and dask's schedule is accepted "
+    "for every n_vals ≤ 32 by kernel evaluation (schedOk_le_32) — larger n is validated (all n ≤ 300 in the thorough "
+    "tier): that part is partial. Validated, not proved: float summation order (tolerance), var/std/moment (Chan "
+    "merge), nan-variants, top-k (model diffed), median/quantile glue, multi-axis value-level equality (the n-d plan "
+    "is diffed against the real graph and executed by the driver on integer data)."
 )
 LEVEL_NOTE = (
     "Trusted: Lean kernel + standard axioms; NumPy kernels on one block (np.sum, np.min, np.argmin, np.partition, "
